@@ -95,7 +95,11 @@ def run(prop, tier, seed, known):
     import numpy as np
     from mir_eval import segment as S
     rng = random.Random(seed)
-    fails, n = [], 0
+    from ._tag import Fails
+    fails = Fails(prop, (('textbook formula', ('C16', 'C04')), ('vmeasure != nce', ('C16',)), ('swap of reference', ('C06',)),
+                         ('label renaming', ('C08', 'C16')), ('is cut at', ('C12',)), ('out of [0, 1]', ('C01',)), ('above 1', ('C01',)),
+                         ('perfect score', ('C02', 'C16'))))
+    n = 0
     t0 = time.time()
 
     def seg(k, end):
